@@ -43,6 +43,8 @@ def clear (fs : Flags) (f : BitVec 64) : Flags :=
 def WF (fs : Flags) : Prop :=
   fs.values &&& ~~~fs.presence = 0#64 ∧ fs.presence.getLsbD 0 = false
 
+instance (fs : Flags) : Decidable fs.WF := by unfold WF; infer_instance
+
 /-- Abstract reading: a partial map from flag index to value. -/
 def lookup (fs : Flags) (i : Nat) : Option Bool :=
   if fs.presence.getLsbD i then some (fs.values.getLsbD i) else none
